@@ -45,7 +45,8 @@ def defP (ctx : Ctx) (st : Stmt) : Prop :=
     (∀ i (h1 : i < names.length) (h2 : i < (defVars st).length), defFact ctx pfx names[i] (defVars st)[i]) ∧
     (names.length = 1 → ∀ t ∈ names, isNewVar ctx pfx t.val = true) ∧
     (short = false → ∀ t ∈ names, isNewVar ctx pfx t.val = true) ∧
-    (∃ t ∈ names, isNewVar ctx pfx t.val = true)
+    (∃ t ∈ names, isNewVar ctx pfx t.val = true) ∧
+    hasDupNames names = false
 
 theorem filter_len_ne {α : Type} {p : α → Bool} : ∀ {l : List α}, (l.filter p).length ≠ l.length → ∃ x ∈ l, p x = false
   | [], h => absurd rfl h
@@ -89,8 +90,8 @@ theorem def_varDefinition (fuel : Nat) (ctx : Ctx) : PostOk (evalVarDefinition f
     -- what the checks on the names establish
     have key2 : ∀ r, ((first :: rest).length = 1 → ∀ t ∈ first :: rest, isNewVar ctx s.pfx t.val = true) →
         (short = false → ∀ t ∈ first :: rest, isNewVar ctx s.pfx t.val = true) →
-        (∃ t ∈ first :: rest, isNewVar ctx s.pfx t.val = true) → PostOk (jp2 r) (defP ctx) := by
-      intro r hone hvar hsome; subst hjp2; pm_beta
+        (∃ t ∈ first :: rest, isNewVar ctx s.pfx t.val = true) → hasDupNames (first :: rest) = false → PostOk (jp2 r) (defP ctx) := by
+      intro r hone hvar hsome hdup; subst hjp2; pm_beta
       po_bind; intro spec
       po_bind; intro next
       pm_zeta
@@ -131,7 +132,7 @@ theorem def_varDefinition (fuel : Nat) (ctx : Ctx) : PostOk (evalVarDefinition f
           (∀ i (h1 : i < (first :: rest).length) (h2 : i < vs.length), defFact ctx s.pfx (first :: rest)[i] vs[i]) →
           ∀ st, defVars st = vs → defP ctx st := by
         intro vs hl hf st hst
-        exact ⟨s.pfx, first :: rest, short, by simp, by rw [hst, hl], by rw [hst]; exact hf, hone, hvar, hsome⟩
+        exact ⟨s.pfx, first :: rest, short, by simp, by rw [hst, hl], by rw [hst]; exact hf, hone, hvar, hsome, hdup⟩
       po_if
       · po_bind; intro values
         pm_zeta
@@ -193,8 +194,11 @@ theorem def_varDefinition (fuel : Nat) (ctx : Ctx) : PostOk (evalVarDefinition f
       rename_i h2
       po_if
       · exact PostOk.errBind
-      · rename_i h3
-        refine key2 () ?_ ?_ ?_
+      rename_i h3
+      po_if
+      · exact PostOk.errBind
+      · rename_i h4
+        refine key2 () ?_ ?_ ?_ (by simpa using h4)
         · intro h1; rw [h1] at hn; exact absurd hn (by decide)
         · intro hs t ht
           have h0 : ((first :: rest).filter fun t => !(isNewVar ctx s.pfx t.val)).length = 0 := by
@@ -215,7 +219,7 @@ theorem def_varDefinition (fuel : Nat) (ctx : Ctx) : PostOk (evalVarDefinition f
           | cons _ _ => simp at hn
         subst hr
         have hfirst : isNewVar ctx s.pfx first.val = true := by simpa using hf
-        refine key2 () ?_ ?_ ?_
+        refine key2 () ?_ ?_ ?_ (by simp [hasDupNames])
         · intro _ t ht; simp at ht; subst ht; exact hfirst
         · intro _ t ht; simp at ht; subst ht; exact hfirst
         · exact ⟨first, by simp, hfirst⟩
